@@ -3,6 +3,7 @@
 package main
 
 import (
+	"bytes"
 	"fmt"
 	"strings"
 
@@ -31,6 +32,7 @@ func (sc *scenario) exec(prefix []int) *vsched.Exec {
 	c20io.mu.Lock()
 	c20io.buf.Reset()
 	c20io.exits = map[int][]int{}
+	c20io.perT = map[int]*bytes.Buffer{}
 	c20io.mu.Unlock()
 	bodies := make([]func(), len(sc.ts))
 	for i := range sc.ts {
@@ -44,11 +46,15 @@ func (sc *scenario) exec(prefix []int) *vsched.Exec {
 func (sc *scenario) describe(x *vsched.Exec, i int) string {
 	c20io.mu.Lock()
 	defer c20io.mu.Unlock()
-	s := fmt.Sprintf("%s | exits=%v", sc.out[i], c20io.exits[i])
+	own := ""
+	if b := c20io.perT[i]; b != nil {
+		own = b.String()
+	}
+	s := fmt.Sprintf("%s | exits=%v | wrote=%q", sc.out[i], c20io.exits[i], own)
 	if p := x.ThreadPanic(i); p != nil {
 		s += " | thread panicked: " + safeSprint(p)
 	}
-	return s
+	return maskConv(s)
 }
 
 func (sc *scenario) names() string {
@@ -147,9 +153,9 @@ func runSched(c *Ctx) {
 		dense  int
 		tagged int
 	}
-	scns := []scn{{[]int{0, 1}, 1, 3}, {[]int{0, 0}, 1, 3}, {[]int{4, 5}, 1, 3}, {[]int{6, 7}, 1, 3}, {[]int{8, 1}, 1, 3}}
+	scns := []scn{{[]int{0, 1}, 1, 3}, {[]int{0, 0}, 1, 3}, {[]int{4, 5}, 1, 3}, {[]int{6, 7}, 1, 3}, {[]int{8, 1}, 1, 3}, {[]int{9, 10}, 1, 3}, {[]int{4, 4}, 1, 3}}
 	if c.Thorough() {
-		scns = []scn{{[]int{0, 1}, 2, 4}, {[]int{0, 0}, 2, 4}, {[]int{4, 5}, 2, 4}, {[]int{6, 7}, 2, 4}, {[]int{8, 1}, 2, 4}, {[]int{0, 1, 7}, 1, 3}, {[]int{4, 6, 5}, 1, 3}}
+		scns = []scn{{[]int{0, 1}, 2, 4}, {[]int{0, 0}, 2, 4}, {[]int{4, 5}, 2, 4}, {[]int{6, 7}, 2, 4}, {[]int{8, 1}, 2, 4}, {[]int{9, 10}, 2, 4}, {[]int{4, 4}, 2, 4}, {[]int{0, 1, 7}, 1, 3}, {[]int{4, 6, 5}, 1, 3}, {[]int{9, 0, 10}, 1, 3}}
 	}
 	idx := 0
 	for _, s := range scns {
